@@ -38,6 +38,8 @@ CONSTANTS MaxCmds,     \* commands submitted per behaviour
           MaxUid,      \* largest UID a FETCH response carries (0: none)
           MaxCode,     \* largest number in a COPYUID / APPENDUID response code
           NFlagSets,   \* how many different flag lists the server uses (1 or 2)
+          SyncLit,     \* BOOLEAN: the server advertises no non-synchronising literals - the message of an APPEND is a
+                       \* synchronising literal: the client stops after the command line and waits for "+"
           Kinds,       \* kinds of command the client submits in this instance
           Greetings    \* greetings the server may open with: subset of {"OK", "PREAUTH"}
 
@@ -105,9 +107,11 @@ Init ==
 Quiet == comp' = {} /\ uni' = <<>>
 
 \* ---------------------------------------------------------------- client
-\* an IDLE occupies the connection until DONE has been written
+\* an IDLE occupies the connection until DONE has been written, a command with a synchronising literal until
+\* the continuation request (or the refusal) has arrived
 Blocking(i) == \/ cmds[i].kind \in Exclusive \ {"IDLE"}
                \/ cmds[i].kind = "IDLE" /\ cmds[i].ph # "stopping"
+               \/ cmds[i].kind = "APPEND" /\ SyncLit /\ cmds[i].ph = ""
 
 \* RFC 9051 5.5: do not pipeline commands whose untagged data could be confused.
 Unambiguous(k, a) ==
@@ -311,10 +315,13 @@ OkAllowed(i) ==
               "GETQUOTAROOT", "GETMETADATA", "APPEND", "IDLE"} -> cstate \in {"auth", "selected"}
     [] OTHER -> cstate = "selected"
 
-\* + idling : the server accepts the IDLE
+\* + idling / + go ahead : the server accepts the IDLE, or the synchronising literal of the APPEND (which the
+\* client then writes, with the rest of the command)
 Cont(i) ==
-  /\ alive /\ i \in PendingOf("IDLE") /\ cmds[i].ph = "" /\ OkAllowed(i)
-  /\ cmds' = [cmds EXCEPT ![i].ph = "idling"]
+  /\ alive
+  /\ i \in PendingOf("IDLE") \/ (SyncLit /\ i \in PendingOf("APPEND"))
+  /\ cmds[i].ph = "" /\ OkAllowed(i)
+  /\ cmds' = [cmds EXCEPT ![i].ph = IF cmds[i].kind = "IDLE" THEN "idling" ELSE "sent"]
   /\ Quiet /\ UNCHANGED <<greet, cstate, mbox, alive>>
 
 \* what a command holds back is handed over when it completes, however it completes
@@ -331,6 +338,9 @@ Tagged(i, st, code) ==
   /\ cmds[i].kind \in Ordered => \A j \in PendingIn(ClassOf(cmds[i].kind)) : i <= j
   \* IDLE: refused instead of the continuation request, or completed after DONE
   /\ cmds[i].kind = "IDLE" => IF st = "OK" THEN cmds[i].ph = "stopping" ELSE cmds[i].ph = ""
+  \* a synchronising literal: refused instead of the continuation request (NO / BAD, nothing of the literal is ever
+  \* sent, everything else goes on), or the command is answered after the literal has been received
+  /\ (cmds[i].kind = "APPEND" /\ SyncLit /\ st = "OK") => cmds[i].ph = "sent"
   \* BAD means the command was not understood: whether a selected mailbox survives a BAD SELECT is not
   \* settled by the RFC, and a conformant server has no reason to answer BAD to a well-formed SELECT
   /\ ~(st = "BAD" /\ cmds[i].kind = "SELECT" /\ cstate = "selected")
